@@ -165,6 +165,8 @@ def cz(n):
 
 
 def cnat(n):
+    if n > 20000:
+        raise ValueError('nat literal too large for vm_compute: %d' % n)
     return '%d%%nat' % n
 
 
